@@ -264,6 +264,64 @@ Definition tr_BSWL_range (endpoints : (list go_endpoint_Endpoint)) : ctl (Z * Z 
     (fun st : Z * Z => let '(maxRange, totalWeight) := st in
     Next (maxRange, totalWeight, minWeight, maxWeight))).
 
+(* struct github.com/TarsCloud/TarsGo/tars/protocol/res/endpointf.EndpointF *)
+Record go_endpointf_EndpointF := { go_endpointf_EndpointF_Host : (list N);
+  go_endpointf_EndpointF_Port : Z;
+  go_endpointf_EndpointF_Timeout : Z;
+  go_endpointf_EndpointF_Istcp : Z;
+  go_endpointf_EndpointF_Grid : Z;
+  go_endpointf_EndpointF_Groupworkid : Z;
+  go_endpointf_EndpointF_Grouprealid : Z;
+  go_endpointf_EndpointF_SetId : (list N);
+  go_endpointf_EndpointF_Qos : Z;
+  go_endpointf_EndpointF_BakFlag : Z;
+  go_endpointf_EndpointF_Weight : Z;
+  go_endpointf_EndpointF_WeightType : Z;
+  go_endpointf_EndpointF_AuthType : Z }.
+
+(* tars/util/endpoint/convert.go: func Endpoint2tars *)
+Definition tr_Endpoint2tars (end_ : go_endpoint_Endpoint) : ctl unit go_endpointf_EndpointF :=
+  Return {|
+      go_endpointf_EndpointF_Host := (go_endpoint_Endpoint_Host end_);
+      go_endpointf_EndpointF_Port := (go_endpoint_Endpoint_Port end_);
+      go_endpointf_EndpointF_Timeout := (go_endpoint_Endpoint_Timeout end_);
+      go_endpointf_EndpointF_Istcp := (go_endpoint_Endpoint_Istcp end_);
+      go_endpointf_EndpointF_Grid := (go_endpoint_Endpoint_Grid end_);
+      go_endpointf_EndpointF_Groupworkid := 0;
+      go_endpointf_EndpointF_Grouprealid := 0;
+      go_endpointf_EndpointF_SetId := (go_endpoint_Endpoint_SetId end_);
+      go_endpointf_EndpointF_Qos := (go_endpoint_Endpoint_Qos end_);
+      go_endpointf_EndpointF_BakFlag := 0;
+      go_endpointf_EndpointF_Weight := (go_endpoint_Endpoint_Weight end_);
+      go_endpointf_EndpointF_WeightType := (go_endpoint_Endpoint_WeightType end_);
+      go_endpointf_EndpointF_AuthType := (go_endpoint_Endpoint_AuthType end_) |}.
+
+Definition k_endpoint_UDP : Z := 0.
+(* tars/util/endpoint/convert.go: func Tars2endpoint, statements "proto := \"tcp\"" .. "e := Endpoint{" *)
+Definition tr_Tars2endpoint_build (end_ : go_endpointf_EndpointF) : ctl go_endpoint_Endpoint go_endpoint_Endpoint :=
+  let proto := (116%N :: (99%N :: (112%N :: (@nil N)))) in
+    bindc (if ((go_endpointf_EndpointF_Istcp end_) =? k_endpoint_UDP)
+      then let proto := (117%N :: (100%N :: (112%N :: (@nil N)))) in
+        Next proto
+      else Next proto)
+    (fun proto : (list N) =>
+    let e := {|
+      go_endpoint_Endpoint_Host := (go_endpointf_EndpointF_Host end_);
+      go_endpoint_Endpoint_Port := (go_endpointf_EndpointF_Port end_);
+      go_endpoint_Endpoint_Timeout := (go_endpointf_EndpointF_Timeout end_);
+      go_endpoint_Endpoint_Istcp := (go_endpointf_EndpointF_Istcp end_);
+      go_endpoint_Endpoint_Grid := (go_endpointf_EndpointF_Grid end_);
+      go_endpoint_Endpoint_Qos := (go_endpointf_EndpointF_Qos end_);
+      go_endpoint_Endpoint_Weight := (go_endpointf_EndpointF_Weight end_);
+      go_endpoint_Endpoint_WeightType := (go_endpointf_EndpointF_WeightType end_);
+      go_endpoint_Endpoint_AuthType := (go_endpointf_EndpointF_AuthType end_);
+      go_endpoint_Endpoint_Proto := proto;
+      go_endpoint_Endpoint_Bind := (@nil N);
+      go_endpoint_Endpoint_Container := (@nil N);
+      go_endpoint_Endpoint_SetId := (go_endpointf_EndpointF_SetId end_);
+      go_endpoint_Endpoint_Key := (@nil N) |} in
+    Next e).
+
 Definition k_tars_failInterval : Z := 5.
 Definition k_tars_fainN : Z := 5.
 Definition k_tars_checkTime : Z := 60.
